@@ -461,16 +461,19 @@ def Manager.taskReport (g : Manager) (tid r : Nat) (v : Rat) (hint : Bool)
       else
         .ok (g, { continues := false, reached := true, next := none })
 
+/-- `rung_sys.on_task_remove(trial_id)` on the system at index `i` (promotion systems drop
+the `_running` record; for stopping systems `_running` is empty anyway). -/
+def delRunningAt (systems : List RungSys) (i tid : Nat) : List RungSys :=
+  match systems[i]? with
+  | some s => systems.set i { s with running := adel tid s.running }
+  | none => systems
+
 /-- `on_task_remove`. -/
 def Manager.taskRemove (g : Manager) (tid : Nat) : Manager :=
   match alookup tid g.taskInfo with
   | none => g
   | some bracket =>
-    let (si, _) := g.sysFor bracket
-    let g' := match g.systems[si]? with
-      | some s => g.setSys si { s with running := adel tid s.running }
-      | none => g
-    { g' with taskInfo := adel tid g'.taskInfo }
+    { g with systems := delRunningAt g.systems (g.sysFor bracket).1 tid, taskInfo := adel tid g.taskInfo }
 
 /-- `on_task_schedule` with the sampled bracket as input: `(promoted?, bracket, milestone)`. -/
 def Manager.taskSchedule (g : Manager) (bracket : Nat) (hint : Option Nat) :
@@ -560,10 +563,10 @@ def Sched.suggest (s : Sched) (newTid bracket : Nat) (hint : Option Nat) :
 
 /-- `_cleanup_trial`. -/
 def Sched.cleanup (s : Sched) (tid : Nat) (d : Decision) : Sched :=
-  let g := s.mgr.taskRemove tid
-  match alookup tid s.active with
-  | none => { s with mgr := g }
-  | some rec => { s with mgr := g, active := aset tid { rec with decision := d } s.active }
+  { s with mgr := s.mgr.taskRemove tid,
+           active := match alookup tid s.active with
+             | none => s.active
+             | some rec => aset tid { rec with decision := d } s.active }
 
 /-- `_update_searcher` : `(do_update, calls)`; `calls` in the order the code issues them. -/
 def Sched.updateSearcher (s : Sched) (tid r : Nat) (_v : Rat) (o : RepOut) (rec : TrialInfo) :
